@@ -434,7 +434,7 @@ def main(rep, ws, tier):
     if (need - {'R19.tmp'}) - quiet:
         rep.fail_incomplete('negative examples (selftest/pyrules_pos.cpp) no longer pass for %s' % sorted((need - {'R19.tmp'}) - quiet))
     rep.extra['positive_examples'] = {'fired': sorted(fired), 'quiet': sorted(quiet)}
-    fx = pyfacts.load(ws, repo, rep)
+    fx = pyfacts.load(ws, repo, rep, max_inst=2 if tier == 'quick' else 12)
     out = []
     counts = {}
     for name, fnc in RULES:
